@@ -1282,7 +1282,40 @@ pub fn run_c04(ctx: &mut Ctx) {
             rep.count("packets_with_api_leftovers");
         }
         c04_one(rep, &m, &p, label, maxsz, &mut r, seed, shard, case);
+        // the same packet with a header whose TKL nibble no longer matches the stored token (the
+        // header is a public field: assigned wholesale for a reply, or its token length set by hand)
+        if case % 4 == 3 {
+            let mut q = p.clone();
+            let how = r.below(3);
+            match how {
+                0 => {
+                    let mut t = r.below(16) as u8;
+                    if t as usize == q.get_token().len() {
+                        t = (t + 1 + r.below(7) as u8) % 16;
+                    }
+                    q.header.set_token_length(t);
+                }
+                1 => {
+                    // header re-initialised after the token was set
+                    let mut h = coap_lite::Header::new();
+                    h.code = q.header.code;
+                    h.message_id = q.header.message_id;
+                    q.header = h;
+                    if q.get_token().is_empty() {
+                        q.header.set_token_length(1 + r.below(8) as u8);
+                    }
+                }
+                _ => {
+                    // header copied from another message (a request with an 8-byte or empty token)
+                    let mut other = Packet::new();
+                    other.set_token(if q.get_token().len() == 8 { vec![] } else { vec![7; 8] });
+                    q.header = other.header.clone();
+                }
+            }
+            c04_inconsistent_header(rep, &q, maxsz, &mut r, &format!("msg: {} | header TKL {} vs token of {} bytes | seed={} shard={} case={}", m.describe(), q.header.get_token_length(), q.get_token().len(), seed, shard, case));
+        }
     }
+    rep.floor("inconsistent_header_limit_decisions", 1);
     // oversize option values: must be refused, never emitted with a wrong length
     if shard == 0 || san {
         for vlen in [65803usize, 65804, 65805, 65806, 70000, 65804 + 65536, 131341] {
@@ -1304,6 +1337,58 @@ pub fn run_c04(ctx: &mut Ctx) {
     rep.floor("label_empty-code-with-payload", 1);
     rep.floor("default_limit_refused", 1);
     rep.floor("default_limit_ok", 1);
+}
+
+/// A Packet whose header TKL disagrees with its token is not a message the reference codec can
+/// judge, but the limit clause still has an implementation-independent reading: whatever the
+/// serialiser emits without a limit is "the exact wire length", and a limited call succeeds, with
+/// the very same bytes, exactly when that length is within the limit.
+fn c04_inconsistent_header(rep: &mut Report, q: &Packet, maxsz: usize, r: &mut Rng, witness: &str) {
+    rep.eval();
+    set_case_str(witness);
+    let unlimited = match guard(|| q.to_bytes_unlimited()) {
+        Err(pr) => {
+            rep.violation(&format!("encode-{}", pr.sig()), pr.text(), witness.to_string());
+            return;
+        }
+        Ok(u) => u,
+    };
+    let w = unlimited.as_ref().ok().map(|b| b.len());
+    let mut limits: Vec<usize> = vec![maxsz, usize::MAX, 0, 4];
+    if let Some(w) = w {
+        limits.extend_from_slice(&[w, w + 1, w.saturating_sub(1), w.saturating_sub(8), w + 8, w.saturating_sub(1 + r.usize_below(16)), w + r.usize_below(16)]);
+    }
+    for (i, l) in limits.iter().enumerate() {
+        let res = if i == 0 { guard(|| q.to_bytes()) } else { guard(|| q.to_bytes_with_limit(*l)) };
+        let name = if i == 0 { "to_bytes()".to_string() } else { format!("to_bytes_with_limit({})", l) };
+        match (res, &unlimited) {
+            (Err(pr), _) => {
+                rep.violation(&format!("encode-{}", pr.sig()), pr.text(), witness.to_string());
+                return;
+            }
+            (Ok(Ok(b)), _) if b.len() > *l => {
+                rep.violation("limit-not-enforced:inconsistent-header", format!("{} returned {} bytes", name, b.len()), witness.to_string());
+                return;
+            }
+            (Ok(Ok(b)), Ok(u)) if &b != u => {
+                rep.violation("limited-output-differs:inconsistent-header", format!("{} returned {} bytes, the unlimited call {} different bytes", name, b.len(), u.len()), witness.to_string());
+                return;
+            }
+            (Ok(Ok(b)), Err(e)) => {
+                rep.violation("limited-output-differs:inconsistent-header", format!("{} returned {} bytes, the unlimited call refused with {:?}", name, b.len(), e), witness.to_string());
+                return;
+            }
+            (Ok(Err(e)), Ok(u)) if u.len() <= *l => {
+                rep.violation("limit-too-strict:inconsistent-header", format!("{} refused with {:?} although the serialiser's own unlimited output is {} bytes", name, e, u.len()), witness.to_string());
+                return;
+            }
+            _ => {}
+        }
+    }
+    rep.count("inconsistent_header_limit_decisions");
+    if let Some(w) = w {
+        rep.distinct(mix(&[0xC04D, q.header.get_token_length() as u64, q.get_token().len() as u64, (w as u64).min(64)]));
+    }
 }
 
 fn steer_by_option(m: &mut Msg, target: usize, r: &mut Rng) -> bool {
